@@ -247,6 +247,37 @@ func checkSelectorAction(r *Run, ga *GA, sn *peg.Node, pfx string) {
 		return true
 	})
 	isPtr := typ == "SelectorTypeJsonPointer"
+	// the parts are assembled in source order: Path starts with the first part (if any) and every later part is appended at the end
+	orderOK, nApp := true, 0
+	ast.Inspect(fd.Body, func(x ast.Node) bool {
+		switch v := x.(type) {
+		case *ast.AssignStmt:
+			if len(v.Lhs) == 1 && len(v.Rhs) == 1 {
+				if l, ok := v.Lhs[0].(*ast.SelectorExpr); ok && l.Sel.Name == "Path" {
+					if call, ok := ast.Unparen(v.Rhs[0]).(*ast.CallExpr); ok {
+						if id, ok := call.Fun.(*ast.Ident); ok && id.Name == "append" {
+							nApp++
+							a0, ok := ast.Unparen(call.Args[0]).(*ast.SelectorExpr)
+							if !ok || a0.Sel.Name != "Path" || types.ExprString(a0.X) != types.ExprString(l.X) || len(call.Args) != 2 || call.Ellipsis.IsValid() {
+								orderOK = false
+							}
+						}
+					}
+				}
+			}
+		case *ast.RangeStmt:
+			// ascending range over the label's []interface{}; no index arithmetic
+			if v.Key != nil {
+				if id, ok := v.Key.(*ast.Ident); !ok || id.Name != "_" {
+					orderOK = false
+				}
+			}
+		case *ast.ForStmt:
+			orderOK = false
+		}
+		return true
+	})
+	r.Check(pfx+".selector-action", fd.Name.Name+":parts-in-order", ga.prog.pos(fd.Pos()), orderOK && nApp >= 1, "the selector's Path must be built by appending each part at the end, in source order (ranging the parts ascending)")
 	var parseCall *ast.CallExpr
 	ast.Inspect(fd.Body, func(x ast.Node) bool {
 		if call, ok := x.(*ast.CallExpr); ok && calleeIs(info, call, "github.com/mitchellh/pointerstructure", "Parse") {
@@ -496,6 +527,7 @@ func init() {
 		r.importing = "C18"
 		checkEvaluatorPipeline(r, prog, a, "c18")
 		checkForwarding(r, prog, a, "c18")
+		checkGetOpts(r, prog, a, "c18") // the default tag name is `bexpr`
 		r.importing = ""
 		r.Technique = "who-may-call census over everything reachable from Evaluate/Execute (forbidden: struct-field reflection, whole-value comparison, interface equality on datum values), with a living positive-control package; single-gateway census of calls into pointerstructure; gateway Config provenance and tag-name pipeline imported from C05/C18; kind-table row for Struct"
 		r.Explain = "Decides: no module code reachable from Evaluate or Execute can observe a struct field except through pointerstructure.Pointer.Get: zero calls to reflect's Field*/NumField/FieldBy*/VisibleFields/IsZero/Equal/DeepEqual/Comparable and no ==/!= between empty-interface operands (the same rule flags every forbidden construct of a positive-control package on every run); the only entries into pointerstructure are Pointer.Get, Pointer.String and Parse; both Get sites carry the evaluator's tag name and hook (C05 gateway rule), the tag name travels creation → Evaluator → every Evaluate → every sub-evaluation (C18 pipeline and forwarding); structs are never operands (no comparator, no is-empty/in/quantifier arm for Struct — C09's kind obligations make those error branches). NOT decided: pointerstructure.getStruct's own handling of '-', unexported and renamed fields (read: skips PkgPath != \"\", honours '-', matches a tagged field only by its tag)."
